@@ -1,4 +1,4 @@
-package main
+package hc
 
 // Generic correspondence for the L1 (generated) layer: every function translated by gotolean is
 // called on generated arguments through canvas.VerifFuncs by reflection; the same arguments go to
@@ -16,12 +16,16 @@ import (
 )
 
 type l1Spec struct {
-	Funcs []struct {
-		File, Recv, Name string
+	Groups []struct {
+		Name  string
+		Funcs []struct {
+			File, Recv, Name string
+		}
 	}
 }
 
-func l1Names(filter func(file, recv, name string) bool) []string {
+// L1Names lists the generated functions of the given translation groups (all groups if none).
+func L1Names(groups []string, filter func(file, recv, name string) bool) []string {
 	p := os.Getenv("VERIF_SPEC")
 	if p == "" {
 		p = "/verif/tools/gotolean/spec.json"
@@ -35,15 +39,26 @@ func l1Names(filter func(file, recv, name string) bool) []string {
 		panic(err)
 	}
 	var out []string
-	for _, f := range s.Funcs {
-		if filter != nil && !filter(f.File, f.Recv, f.Name) {
+	for _, g := range s.Groups {
+		want := len(groups) == 0
+		for _, x := range groups {
+			if x == g.Name {
+				want = true
+			}
+		}
+		if !want {
 			continue
 		}
-		n := f.Name
-		if f.Recv != "" {
-			n = f.Recv + "." + f.Name
+		for _, f := range g.Funcs {
+			if filter != nil && !filter(f.File, f.Recv, f.Name) {
+				continue
+			}
+			n := f.Name
+			if f.Recv != "" {
+				n = f.Recv + "." + f.Name
+			}
+			out = append(out, n)
 		}
-		out = append(out, n)
 	}
 	return out
 }
@@ -128,10 +143,10 @@ var l1ParamNames = map[string][]string{
 }
 
 // functions downstream of libm transcendental calls are compared with tolerance ("~")
-var l1Approx = map[string]bool{"Matrix.Decompose": true}
+var L1Approx = map[string]bool{"Matrix.Decompose": true}
 
 // l1Corr emits n cases per function for the given function names.
-func (c *Ctx) l1Corr(names []string, n int) {
+func (c *Ctx) L1Corr(names []string, n int) {
 	for _, name := range names {
 		f, ok := canvas.VerifFuncs[name]
 		if !ok {
@@ -171,7 +186,7 @@ func (c *Ctx) l1Corr(names []string, n int) {
 			_ = finite
 			line := "L1 " + name + " " + strings.Join(toks, " ")
 			mode := "="
-			if l1Approx[name] {
+			if L1Approx[name] {
 				mode = "~"
 			}
 			c.Case(line, mode, strings.Join(outs, " "))
